@@ -65,8 +65,11 @@ func NodeRoutes(addr sdk.Address) []Route {
 }
 
 // DispatchRoute is custom/pocketcore/dispatch for an application.
-func DispatchRoute(app chain.Key) Route {
-	hdr := pocketTypes.SessionHeader{ApplicationPubKey: app.Pub.RawString(), Chain: chain.ChainHash, SessionBlockHeight: 1}
+func DispatchRoute(app chain.Key) Route { return DispatchRouteChain(app, chain.ChainHash) }
+
+// DispatchRouteChain is DispatchRoute for an explicit network identifier.
+func DispatchRouteChain(app chain.Key, chainID string) Route {
+	hdr := pocketTypes.SessionHeader{ApplicationPubKey: app.Pub.RawString(), Chain: chainID, SessionBlockHeight: 1}
 	return Route{"custom/pocketcore/dispatch", mj(func() ([]byte, error) {
 		return pocketTypes.ModuleCdc.MarshalJSON(pocketTypes.QueryDispatchParams{SessionHeader: hdr})
 	})}
